@@ -123,8 +123,8 @@ func checkPositions(ps *pkgSrc, d runner.Diagnostic) []violation {
 	if src, ok := ps.files[d.Position.Filename]; ok && hasLineDirectiveOrCgo(src) {
 		return nil
 	}
-	if _, ok := ps.files[d.Position.Filename]; !ok && ps.anyLineDirective() {
-		return nil // remapped by a //line directive to a name outside the package
+	if ps.anyLineDirective() {
+		return nil // positions may be remapped by a //line directive, also into another real file of the package
 	}
 	so, msg := ps.posOffset(d.Position)
 	if msg != "" {
